@@ -165,6 +165,11 @@ func repoState() string {
 // invocation into workDir.
 func build(workDir string, race bool) string {
 	simDir := filepath.Join(verifDir, "sim")
+	if v := os.Getenv("VERIF_SIM_DIR"); v != "" {
+		// a snapshot of the simulator sources (long batch jobs of bin/seedregress
+		// and bin/benigneval, so that edits made meanwhile do not reach them)
+		simDir = v
+	}
 	modfile := filepath.Join(simDir, "go.mod")
 	env := goEnv()
 	if repoDir != "/repo" {
